@@ -30,6 +30,7 @@ type Knobs struct {
 	NoListEq   bool    // never put lists under eq/ne (documented domain)
 	RootBool   bool
 	ConstHeavy bool // prefer literals/constants (folding workloads)
+	Budget     int  // node budget of one program (0 = default)
 }
 
 func DrawKnobs(r *Rng) Knobs {
@@ -58,6 +59,9 @@ func DrawKnobs(r *Rng) Knobs {
 	if r.P(0.1) { // occasionally a deep, narrow or wide, shallow program
 		k.MaxDepth, k.MaxFan = 8, 2
 	}
+	if r.P(0.07) { // occasionally a big, bushy program: operand stacks beyond 16 slots
+		k.MaxDepth, k.MaxFan, k.PLeaf, k.Budget = 7, 6, 0.05, 500
+	}
 	return k
 }
 
@@ -80,6 +84,7 @@ type Gen struct {
 	cb map[Ty][]string // constant names by type
 	ob map[Ty][]int    // pure/now op indices by return type
 	fl []int           // failing op indices
+	left int           // nodes left in the current program's budget
 }
 
 // NewGen draws a configuration (variables, constants, user operators).
@@ -296,6 +301,10 @@ func (g *Gen) Program() *Node {
 		t = []Ty{TBool, TInt, TInt, TStr, TIntList}[g.R.Intn(5)]
 	}
 	for i := 0; i < 20; i++ {
+		g.left = g.K.Budget
+		if g.left == 0 {
+			g.left = 160
+		}
 		n := g.Expr(t, g.K.MaxDepth)
 		if n.K == KOp || n.K == KIf {
 			return n
@@ -393,7 +402,8 @@ func (g *Gen) customCall(idx int, d int) *Node {
 // Expr draws an expression of static type t with at most d levels below it.
 func (g *Gen) Expr(t Ty, d int) *Node {
 	r := g.R
-	if d <= 1 || r.P(g.K.PLeaf) {
+	g.left--
+	if d <= 1 || g.left <= 0 || r.P(g.K.PLeaf) {
 		return g.Leaf(t)
 	}
 	d--
